@@ -52,7 +52,7 @@ def plans(tier):
               ("load", 2, "10", 0, 2, 7, 0, 0)]
         return P
     for ver in ("10", "12"):
-        P += [("sendjoin", 1, ver, 1, 2, 1, 0, 0),
+        P += [("sendjoin", 1, ver, 1, 2, 1 if ver == "10" else 6, 0, 0),
               ("chain", 1, ver, 1, 2, 1, 0, 0),
               ("chain", 2, ver, 1, 2, 1, 0, 0),
               ("atstate", 1, ver, 1, 1, 1, 0, 0),
